@@ -22,6 +22,9 @@ RULE = (
     'against the identity function of the id in that row, ids increasing, hid[pinds]==phid, particle arrays in file order. non-trivial = distinct (id order, slabs, flags, chunking) '
     'cases whose ids are not already sorted across slabs'
 )
+RULE += (
+    ' Added after seeded round 9: 11-16 slab directories loaded in chunks; the last three objects kept alive and every array of theirs (host indices included) re-compared after each later construction.'
+)
 ASSUMPTIONS = ['z_mock=0.5 (a "primary" redshift, particles loaded) for 9 of 11 cases; every 11th case a secondary redshift (0.575/0.45/1.625: halo files only) and every 11th one with particle files that hold no particle; at least one halo per staged chunk (the constructor takes min/max of the masses)']
 
 MPART = 2.0e9
